@@ -1,51 +1,256 @@
-"""Receive-credit ledger for C08, taken at the h2 public API boundary WITHOUT touching /repo.
+"""Receive-credit ledger (C08; also usable by C11), taken at the h2 PUBLIC API boundary, WITHOUT touching /repo
+and without relying on the spelling of grpclib's private attributes.
 
-Ledger(proto) wraps, on the INSTANCES that grpclib created (never on classes, never in /repo):
+Ledger(proto[, transport]) finds what it needs BY ROLE and wraps INSTANCES only (never classes, never /repo):
 
-  boundary ledger (what the direct oracle uses)
+  boundary ledger (what the direct oracle uses) -- needs only the h2.connection.H2Connection object that grpclib
+  created for this connection (found by type in the object graph below `proto`):
     H2Connection.receive_data              -> `received[sid]` += flow_controlled_length of every DataReceived
-                                              event h2 hands to grpclib
-    H2Connection.acknowledge_received_data -> `credited[sid]` += size of every call grpclib makes
-                                              (`ack_calls` keeps the individual calls)
+                                              event h2 hands to grpclib; `frames[sid]`
+    H2Connection.acknowledge_received_data -> `credited[sid]` += size of every call grpclib makes (`ack_calls`)
 
-  ordered micro-event log (what the model is driven with / compared against), `log`:
-    EventsProcessor.process       ('data', sid, len(data), fcl) / ('end', sid)      -- as grpclib processes them
-    EventsProcessor.register      ('open', sid); the returned release_stream is wrapped: ('release', sid)
-                                  on EVERY call (also the repeated, no-op ones)
-    EventsProcessor.close         ('close',)   -- connection.is_closing() is true from here on
-    Buffer.read (per instance)    ('read', sid, size) ... ('ret', sid, data|eof|empty|assert|badsize) or
-                                  ('cancel', sid) when CancelledError (or any other BaseException) unwinds it
-    Buffer._unacked.get           ('block', sid) when the read suspends on the empty queue, ('wake', sid)
-                                  when it is resumed with an item
-    acknowledge_received_data     ('ack', sid, size)
+  ordered micro-event log `log` (what the model is driven with / compared against):
+    ('data', sid, len(data), fcl) / ('end', sid)   logged when grpclib takes the event out of the list that
+                                  receive_data returned (the list is returned as a list subclass that logs on
+                                  iteration / indexing): exactly grpclib's processing order, still the h2 boundary
+    ('ack', sid, size)            acknowledge_received_data
+    ('open', sid)                 the connection's events processor registers a stream (`register`, found on the
+                                  object below `proto` that offers it); the release function it returns is wrapped:
+    ('release', sid)              on EVERY call (also the repeated, no-op ones)
+    ('read', sid, size) ... ('ret', sid, data|eof|empty|assert|badsize|error) or ('cancel', sid)
+                                  the stream's public coroutine `recv_data(size)` (wrapped on the instance); its
+                                  suspensions are seen by stepping the coroutine, not through Buffer's queue:
+    ('block', sid) / ('wake', sid)   recv_data suspended / was resumed (a resumption that suspends again without
+                                  having produced anything is dropped: nothing observable happened)
+    ('close',)                    the transport given to Ledger starts closing (`on_close` of harness.wire.MemTransport;
+                                  the driver logs it itself when it makes the connection drop)
     (the driver adds ('pause',) / ('resume',) when it pauses / resumes the transport)
-The Buffer wrappers stay in place after the stream is released, so reads AFTER release are logged as well.
 
-The wrappers only record and delegate; they change no argument, result or exception.
+  state views (None when the component cannot be found -- the caller masks it on both sides):
+    held(sid) / forfeited(sid)    credit of the frames still queued in the buffer of a registered / released stream:
+                                  the buffer is the object below the stream that offers read()+add(); its queue is
+                                  the asyncio.Queue / deque / list below it whose items carry the credit
+
+`unobservable` names the components that could not be located ('h2', 'register', 'recv_data', 'queue'); nothing
+here raises because of a missing or renamed attribute.  The wrappers only record and delegate; they change no
+argument, result or exception.  The recv_data wrapper stays in place after the stream is released, so reads AFTER
+release are logged as well.
 """
 import asyncio
+import collections
+import types
 
+from h2.connection import H2Connection
 from h2.events import DataReceived, StreamEnded
 
 
+# ---- locating things by role ----------------------------------------------------------------------------
+
+def _attrs(obj):
+    """(name, value) of the instance attributes of obj (incl. slots), never raising"""
+    out = []
+    d = getattr(obj, '__dict__', None)
+    if isinstance(d, dict):
+        out += list(d.items())
+    for cls in type(obj).__mro__:
+        for n in getattr(cls, '__slots__', ()) or ():
+            try:
+                out.append((n, getattr(obj, n)))
+            except Exception:
+                pass
+    return out
+
+
+def _is_plain(v):
+    return v is None or isinstance(v, (int, float, str, bytes, bool, type, types.FunctionType, types.MethodType,
+                                       asyncio.AbstractEventLoop, asyncio.Future))
+
+
+def find_below(root, pred, depth=3, skip=()):
+    """breadth-first search of the object graph below `root` (instance attributes only) for the first object
+    satisfying pred; -> (object, parent) or (None, None)"""
+    seen = {id(root)}
+    level = [(root, None)]
+    for _ in range(depth + 1):
+        nxt = []
+        for obj, parent in level:
+            try:
+                if obj is not root and pred(obj):
+                    return obj, parent
+            except Exception:
+                pass
+            for _, v in _attrs(obj):
+                if _is_plain(v) or id(v) in seen or isinstance(v, skip):
+                    continue
+                if isinstance(v, (dict, list, tuple, set, frozenset, collections.deque)):
+                    continue
+                seen.add(id(v))
+                nxt.append((v, obj))
+        level = nxt
+    return None, None
+
+
+def find_h2(proto):
+    """the H2Connection grpclib created for this connection"""
+    obj, _ = find_below(proto, lambda o: isinstance(o, H2Connection))
+    return obj
+
+
+def find_offering(root, names, depth=2):
+    """the first object below root (or root) on which all `names` are callable"""
+    def ok(o):
+        return all(callable(getattr(o, n, None)) for n in names)
+    if ok(root):
+        return root
+    obj, _ = find_below(root, ok, depth=depth, skip=(H2Connection,))
+    return obj
+
+
+def find_register(proto):
+    """(object, method name) with which the connection's events processor registers a stream and hands out the
+    release function: `register`, else the one bound method below proto whose name says so"""
+    obj = find_offering(proto, ('register',))
+    if obj is not None:
+        return obj, 'register'
+
+    def names(o):
+        return [n for n in dir(type(o)) if 'regist' in n.lower() and not n.startswith('__')
+                and callable(getattr(o, n, None))]
+    cand, _ = find_below(proto, lambda o: len(names(o)) == 1, depth=2, skip=(H2Connection,))
+    if cand is not None:
+        return cand, names(cand)[0]
+    return None, None
+
+
+def find_buffer(stream):
+    """the receive buffer of a protocol stream: the object below it that offers read() and add()"""
+    return find_offering(stream, ('read', 'add'), depth=1)
+
+
+def queue_items(buf):
+    """the items queued in a receive buffer (oldest first), or None when no queue-like container is found"""
+    if buf is None:
+        return None
+    cands = []
+    for n, v in _attrs(buf):
+        if isinstance(v, asyncio.Queue):
+            inner = getattr(v, '_queue', None)          # asyncio's own attribute (stdlib), guarded
+            if inner is None:
+                return None
+            cands.append((0, n, list(inner)))
+        elif isinstance(v, (collections.deque, list)):
+            cands.append((1, n, list(v)))
+    # the queue of frames whose credit is still owed holds (data, size, credit) items; prefer an asyncio.Queue,
+    # then the container whose items have a `ack_size` / three fields
+    def score(c):
+        kind, name, items = c
+        s = kind * 10
+        if items and not all(_credit_of(i) is not None for i in items):
+            s += 100
+        if 'unack' not in name.lower():
+            s += 1
+        if items and all(isinstance(i, tuple) and len(i) == 2 for i in items):
+            s += 50                                   # (memoryview, size): already acknowledged data
+        return s
+    cands = [c for c in cands if score(c) < 100]
+    if not cands:
+        return None
+    cands.sort(key=score)
+    if len(cands) > 1 and score(cands[0]) == score(cands[1]) and cands[0][2] != cands[1][2]:
+        return None                                   # ambiguous: do not guess
+    return cands[0][2]
+
+
+def _credit_of(item):
+    v = getattr(item, 'ack_size', None)
+    if isinstance(v, int):
+        return v
+    if isinstance(item, tuple) and len(item) == 3 and isinstance(item[2], int):
+        return item[2]
+    return None
+
+
+class _LoggedEvents(list):
+    """what receive_data returned, logging each DataReceived / StreamEnded at the moment grpclib takes it out"""
+
+    def _bind(self, ledger):
+        self._ledger = ledger
+        self._seen = set()
+        return self
+
+    def _note(self, i, ev):
+        if i in self._seen:
+            return
+        self._seen.add(i)
+        self._ledger._processing(ev)
+
+    def __iter__(self):
+        for i in range(len(self)):
+            ev = list.__getitem__(self, i)
+            self._note(i, ev)
+            yield ev
+
+    def __getitem__(self, i):
+        ev = list.__getitem__(self, i)
+        if isinstance(i, int):
+            self._note(i % len(self) if len(self) else i, ev)
+        return ev
+
+    def pop(self, i=-1):
+        k = i % len(self) if len(self) else i
+        ev = list.pop(self, i)
+        self._ledger._processing(ev)
+        self._seen = {j - 1 if j > k else j for j in self._seen if j != k}
+        return ev
+
+
 class Ledger:
-    def __init__(self, proto):
+    def __init__(self, proto, transport=None):
         self.proto = proto
+        self.transport = transport
         self.log = []
         self.received = {}          # boundary: sid -> flow-controlled bytes received
         self.credited = {}          # boundary: sid -> bytes acknowledged
         self.ack_calls = []         # boundary: (sid, size) per call
         self.frames = {}            # sid -> [(len(data), fcl)] of the DataReceived events, in order
-        self.buffers = {}           # sid -> Buffer (kept after release, to look at what was forfeited)
+        self.streams = {}           # sid -> protocol stream object (kept after release)
+        self.buffers = {}           # sid -> receive buffer object or None (kept after release)
         self.cancelled_reads = set()
         self.consumed = {}          # sid -> bytes handed to the application by completed reads
         self.requested = {}         # sid -> highest byte position any read has asked for so far
         self.over_events = []       # (sid, log position, received, credited) whenever a call over-credits
-        self.conn = proto.connection
-        self.h2 = proto.connection._connection
-        self.processor = proto.processor
-        self._wrap_h2()
-        self._wrap_processor()
+        self.unobservable = set()
+        self.h2 = find_h2(proto)
+        if self.h2 is None:
+            self.unobservable.add('h2')
+        else:
+            self._wrap_h2()
+        self.processor, self._register_name = find_register(proto)
+        if self.processor is None:
+            self.unobservable.add('register')
+        else:
+            self._wrap_register()
+        if transport is not None and hasattr(transport, 'on_close'):
+            prev = transport.on_close
+
+            def on_close():
+                self.note_close()
+                if prev is not None:
+                    prev()
+            transport.on_close = on_close
+
+    # ---- is the order of events / reads / releases observable at all?
+    @property
+    def ordered(self):
+        return not (self.unobservable & {'h2', 'register', 'recv_data'})
+
+    def note_close(self):
+        if ('close',) not in self.log:
+            self.log.append(('close',))
+
+    def closing(self):
+        t = self.transport
+        return bool(t is not None and (getattr(t, 'closing', False) or getattr(t, 'lost', False)))
 
     # ---- h2 API boundary --------------------------------------------------------------------------
     def _wrap_h2(self):
@@ -60,6 +265,10 @@ class Ledger:
                     sid = ev.stream_id
                     self.received[sid] = self.received.get(sid, 0) + ev.flow_controlled_length
                     self.frames.setdefault(sid, []).append((len(ev.data), ev.flow_controlled_length))
+            if type(events) is list:
+                return _LoggedEvents(events)._bind(self)
+            for ev in events:                          # not a plain list: log in arrival order
+                self._processing(ev)
             return events
 
         def acknowledge_received_data(acknowledged_size, stream_id):
@@ -74,96 +283,148 @@ class Ledger:
         h2c.receive_data = receive_data
         h2c.acknowledge_received_data = acknowledge_received_data
 
-    # ---- grpclib's processing order ---------------------------------------------------------------
-    def _wrap_processor(self):
+    def _processing(self, event):
+        if self.closing():                           # after the connection was closed grpclib drops every event
+            return
+        if isinstance(event, DataReceived):
+            self.log.append(('data', event.stream_id, len(event.data), event.flow_controlled_length))
+        elif isinstance(event, StreamEnded):
+            self.log.append(('end', event.stream_id))
+
+    # ---- registration / release -------------------------------------------------------------------
+    def _wrap_register(self):
         proc = self.processor
-        orig_process = proc.process
-        orig_register = proc.register
-        orig_close = proc.close
+        name = self._register_name
+        orig_register = getattr(proc, name)
 
-        def process(event):
-            if hasattr(proc, 'processors'):          # after close() grpclib drops every event
-                if isinstance(event, DataReceived):
-                    self.log.append(('data', event.stream_id, len(event.data),
-                                     event.flow_controlled_length))
-                elif isinstance(event, StreamEnded):
-                    self.log.append(('end', event.stream_id))
-            return orig_process(event)
-
-        def register(stream):
-            release = orig_register(stream)
-            sid = stream.id
+        def register(stream, *a, **kw):
+            release = orig_register(stream, *a, **kw)
+            sid = _stream_id(stream)
+            if sid is None:
+                self.unobservable.add('register')
+                return release
             self.log.append(('open', sid))
-            self.buffers[sid] = stream.buffer
-            self._wrap_buffer(sid, stream.buffer)
+            self.streams[sid] = stream
+            self.buffers[sid] = find_buffer(stream)
+            self._wrap_reads(sid, stream)
+            if not callable(release):
+                self.unobservable.add('register')
+                return release
 
             def release_stream(*a, **kw):
                 self.log.append(('release', sid))
                 return release(*a, **kw)
             return release_stream
 
-        def close(*a, **kw):
-            if ('close',) not in self.log:
-                self.log.append(('close',))
-            return orig_close(*a, **kw)
+        try:
+            setattr(proc, name, register)
+        except Exception:
+            self.unobservable.add('register')
 
-        proc.process = process
-        proc.register = register
-        proc.close = close
+    def _wrap_reads(self, sid, stream):
+        target, name = stream, 'recv_data'
+        orig = getattr(stream, 'recv_data', None)
+        if not callable(orig) or not asyncio.iscoroutinefunction(orig):
+            # no public recv_data coroutine on the stream: observe the buffer's read(size) coroutine instead
+            target, name = self.buffers.get(sid), 'read'
+            orig = getattr(target, 'read', None)
+            if not callable(orig) or not asyncio.iscoroutinefunction(orig):
+                self.unobservable.add('recv_data')
+                return
+        led = self
 
-    def _wrap_buffer(self, sid, buf):
-        q = buf._unacked
-        orig_get = q.get
-        orig_read = buf.read
+        @types.coroutine
+        def stepped(coro):
+            """run `coro` to completion, re-yielding whatever it yields, and log its suspensions"""
+            try:
+                y = coro.send(None)
+            except StopIteration as e:
+                return e.value
+            while True:
+                led.log.append(('block', sid))
+                try:
+                    v = yield y
+                except BaseException as ex:
+                    try:
+                        y = coro.throw(ex)
+                    except StopIteration as e:
+                        return e.value
+                    continue
+                led.log.append(('wake', sid))
+                try:
+                    y = coro.send(v)
+                except StopIteration as e:
+                    return e.value
 
-        async def get():
-            blocked = q.empty()
-            if blocked:
-                self.log.append(('block', sid))
-            item = await orig_get()
-            if blocked:
-                self.log.append(('wake', sid))
-            return item
-
-        async def read(size):
+        async def recv_data(size):
             self.log.append(('read', sid, size))
             self.requested[sid] = max(self.requested.get(sid, 0), self.consumed.get(sid, 0) + max(size, 0))
             try:
-                data = await orig_read(size)
+                data = await stepped(orig(size))
             except AssertionError:
                 self.log.append(('ret', sid, 'badsize' if size < 0 else 'assert'))
                 raise
-            except BaseException:
+            except asyncio.CancelledError:
                 self.cancelled_reads.add(sid)
                 self.log.append(('cancel', sid))
+                raise
+            except BaseException:
+                self.cancelled_reads.add(sid)
+                self.log.append(('ret', sid, 'error'))
                 raise
             self.log.append(('ret', sid, 'empty' if size == 0 else ('data' if data else 'eof')))
             if data:
                 self.consumed[sid] = self.consumed.get(sid, 0) + size
             return data
 
-        q.get = get
-        buf.read = read
+        try:
+            setattr(target, name, recv_data)
+        except Exception:
+            self.unobservable.add('recv_data')
 
     # ---- views ------------------------------------------------------------------------------------
+    def is_registered(self, sid):
+        """registered and release_stream not yet called, as far as the log tells"""
+        st = None
+        for e in self.log:
+            if len(e) > 1 and e[1] == sid:
+                if e[0] == 'open':
+                    st = True
+                elif e[0] == 'release':
+                    st = False
+        return bool(st)
+
     def registered(self):
-        return sorted(self.processor.streams)
+        return sorted(s for s in self.streams if self.is_registered(s))
+
+    def _queued(self, sid):
+        items = queue_items(self.buffers.get(sid))
+        if items is None:
+            self.unobservable.add('queue')
+            return None
+        tot = 0
+        for it in items:
+            c = _credit_of(it)
+            if c is None:
+                self.unobservable.add('queue')
+                return None
+            tot += c
+        return tot
 
     def held(self, sid):
-        """credit still owed for frames queued in the REGISTERED buffer of sid"""
-        st = self.processor.streams.get(sid)
-        if st is None:
+        """credit still owed for frames queued in the buffer of the REGISTERED stream sid (None: not observable)"""
+        if sid not in self.streams or not self.is_registered(sid):
             return 0
-        return sum(it.ack_size for it in list(st.buffer._unacked._queue))
+        return self._queued(sid)
 
     def forfeited(self, sid):
-        """credit of frames left in the buffer of a stream that is no longer registered"""
-        if sid in self.processor.streams or sid not in self.buffers:
+        """credit of frames left in the buffer of a stream that is no longer registered (None: not observable)"""
+        if sid not in self.streams or self.is_registered(sid):
             return 0
-        return sum(it.ack_size for it in list(self.buffers[sid]._unacked._queue))
+        return self._queued(sid)
 
     def sids(self):
-        s = set(self.received) | set(self.credited) | set(self.buffers)
+        s = set(self.received) | set(self.credited) | set(self.streams)
         for e in self.log:
             if len(e) > 1:
                 s.add(e[1])
@@ -184,7 +445,36 @@ class Ledger:
         return getattr(m, '_bytes_processed', None)
 
 
+def _stream_id(stream):
+    v = getattr(stream, 'id', None)
+    if isinstance(v, int):
+        return v
+    ints = [(n, x) for n, x in _attrs(stream) if isinstance(x, int) and not isinstance(x, bool) and 'id' in n.lower()]
+    return ints[0][1] if len(ints) == 1 else None
+
+
 # ---- log -> model line ------------------------------------------------------------------------------
+
+def canonical_log(log):
+    """drop resumptions that had no observable effect: ('wake', sid) directly followed -- as far as sid is
+    concerned -- by ('block', sid) (the waiter was woken but found nothing, e.g. the item was drained by a release)"""
+    out = []
+    i = 0
+    n = len(log)
+    while i < n:
+        e = log[i]
+        if e[0] == 'wake':
+            j = i + 1
+            while j < n and not (len(log[j]) > 1 and log[j][1] == e[1]) and log[j][0] != 'close':
+                j += 1
+            if j < n and log[j] == ('block', e[1]):
+                out.extend(log[i + 1:j])
+                i = j + 1
+                continue
+        out.append(e)
+        i += 1
+    return out
+
 
 def model_tokens(log):
     """Split the ordered log into the model's input events and, per input event, the outputs the
@@ -233,8 +523,8 @@ def model_tokens(log):
 
 
 def parse_model_answer(line):
-    """-> (per-event output token lists without the ghost 'd' tokens, {sid: (recv, cred, drop, held, reg)},
-    (recv, cred, drop, held, closing, legal))"""
+    """-> (per-event output token lists without the ghost 'd' tokens, {sid: (recv, cred, forfeited, held, reg)},
+    (recv, cred, forfeited, held, closing, legal))"""
     tr, per, conn = [p.strip() for p in line.split('|')]
     trace = []
     for w in tr.split():
